@@ -263,3 +263,42 @@ package rhp
 //@   loop "range renterSigResp.RenterSatisfiedPolicies"
 //@     invariant -1 <= rangeindex && rangeindex < len(renterSigResp.RenterSatisfiedPolicies)
 //@   ensures [released-or-broadcast] called("FundV2Transaction") && callres("FundV2Transaction", 2) == nil ==> called("BroadcastV2TransactionSet") && callres("BroadcastV2TransactionSet") == nil || called("ReleaseInputs")
+//
+//@ iface Contractor.RenewV2Contract
+//@   assigns nothing
+//@   precall [pool-accepted] called("AddV2PoolTransactions") && callres("AddV2PoolTransactions", 1) == nil && callres("V2TransactionSet", 2) == nil
+//@ iface Contractor.V2FileContractElement
+//@   assigns nothing
+//@ extern (*rhp4.RPCRefreshContractRequest).Validate
+//@   assigns nothing
+//@ extern (*rhp4.RPCRenewContractRequest).Validate
+//@   assigns nothing
+//@ extern (consensus.State).RenewalSigHash pure
+//@ extern rhp4.NewRPCError
+//@   assigns nothing
+//@   ensures result != nil
+//@ extern (*rhp4.HostPrices).Validate
+//@   assigns nothing
+//@ extern (*rhp4.RPCRefreshContractRequest).ValidChallengeSignature pure
+//@ extern (*rhp4.RPCRenewContractRequest).ValidChallengeSignature pure
+//
+//@ func (*Server).handleRPCRefreshContract props C16
+//@   callbacks pure
+//@   requires s != nil && s.contractor != nil && s.chain != nil && s.wallet != nil && s.settings != nil && stream != nil
+//@   ghostvar fundedInputs int
+//@   aftercall FundV2Transaction : fundedInputs = len(renewalTxn.SiacoinInputs)
+//@   loop "range req.RenterInputs"
+//@     invariant -1 <= rangeindex && rangeindex < len(req.RenterInputs)
+//@   loop "range renterSigResp.RenterSatisfiedPolicies"
+//@     invariant -1 <= rangeindex && rangeindex < len(renterSigResp.RenterSatisfiedPolicies)
+//@   ensures [released-or-broadcast] called("FundV2Transaction") && callres("FundV2Transaction", 2) == nil ==> called("BroadcastV2TransactionSet") && callres("BroadcastV2TransactionSet") == nil || called("ReleaseInputs")
+//@ func (*Server).handleRPCRenewContract props C16
+//@   callbacks pure
+//@   requires s != nil && s.contractor != nil && s.chain != nil && s.wallet != nil && s.settings != nil && stream != nil
+//@   ghostvar fundedInputs int
+//@   aftercall FundV2Transaction : fundedInputs = len(renewalTxn.SiacoinInputs)
+//@   loop "range req.RenterInputs"
+//@     invariant -1 <= rangeindex && rangeindex < len(req.RenterInputs)
+//@   loop "range renterSigResp.RenterSatisfiedPolicies"
+//@     invariant -1 <= rangeindex && rangeindex < len(renterSigResp.RenterSatisfiedPolicies)
+//@   ensures [released-or-broadcast] called("FundV2Transaction") && callres("FundV2Transaction", 2) == nil ==> called("BroadcastV2TransactionSet") && callres("BroadcastV2TransactionSet") == nil || called("ReleaseInputs")
